@@ -269,6 +269,46 @@ def grammar_sweep(tier, rng, wd, cases, stats):
                         "max_args": a2, "max_args_action_position": a3, "states": r["distinct"], "wall_s": round(r["wall_s"], 1)}
 
 
+def refs_sweep(tier, rng, wd, cases, stats):
+    """Name-resolution graphs enumerated by TLC (spec/CfgRefs.tla), rendered as defvar and as defalias texts."""
+    d = workdir("c03/refs")
+    n = 3
+    with open(os.path.join(d, "CfgRefs.cfg"), "w") as f:
+        f.write("INIT Init\nNEXT Next\nCONSTANT N = %d\nINVARIANT Emit\nCHECK_DEADLOCK FALSE\n" % n)
+    r = kv.run_tlc(d, "CfgRefs", workers=4, timeout=900, heap="4g")
+    tlc_ok(r, "CfgRefs")
+    gf = os.path.join(d, "refs.ndjson")
+    m = kv.extract_prints(r["out"], "REFS", gf)
+    os.remove(r["out"])
+
+    def var_value(e):
+        ref = "$v%d" % e["j"]
+        return {"const": "a", "ref": ref, "listref": "(a %s)" % ref, "concat": "(concat x %s)" % ref, "nested": "((%s))" % ref}[e["k"]]
+
+    def alias_value(e):
+        ref = "@a%d" % e["j"]
+        return {"const": "a", "ref": ref, "listref": "(multi %s b)" % ref, "concat": "(tap-hold 200 200 %s b)" % ref,
+                "nested": "(macro %s)" % ref}[e["k"]]
+    k = 0
+    for line in open(gf):
+        g = json.loads(line)
+        nn = len(g["g"])
+        u = g["use"]
+        for sigil, name, form, val in (("$", "v", "defvar", var_value), ("@", "a", "defalias", alias_value)):
+            decl = "(%s %s)" % (form, " ".join("%s%d %s" % (name, i + 1, val(e)) for i, e in enumerate(g["g"])))
+            if u == 0:
+                layer = "a"
+            elif u <= nn:
+                layer = "%s%s%d" % (sigil, name, u)
+            else:
+                layer = "(macro %s%s%d)" % (sigil, name, u - nn)
+            text = "(defsrc a)\n%s\n(deflayer base %s)\n" % (decl, layer)
+            if cases.add("refs:" + form, "g%d" % nn, text, {}):
+                k += 1
+    os.remove(gf)
+    stats["refs"] = {"names": n, "graphs_x_uses": m, "states": r["distinct"], "texts": k, "wall_s": round(r["wall_s"], 1)}
+
+
 def byte_level(tier, rng, cases, texts, stats):
     per = 12 if tier == "quick" else 150
     n = 0
@@ -404,6 +444,8 @@ def run(tier, seed):
     log("[c03] structure mutations: %d texts (%.0fs)" % (len(cases.items), time.time() - t0))
     grammar_sweep(tier, rng, wd, cases, stats)
     log("[c03] + grammar sweep: %d texts (%.0fs)" % (len(cases.items), time.time() - t0))
+    refs_sweep(tier, rng, wd, cases, stats)
+    log("[c03] + name-resolution graphs: %d texts (%.0fs)" % (len(cases.items), time.time() - t0))
     byte_level(tier, rng, cases, texts, stats)
     as_includes(tier, rng, cases, stats)
     on_disk(tier, rng, cases, wd, stats)
